@@ -73,7 +73,7 @@ Proof.
   pose proof (digit_ok_range _ Hd1) as Rd.
   assert (Hs1 : forall s1, s1 = map dg (d :: ds) ++ r ->
      (if prefixb [c_0; c_x] s1 || eq_char s1 c_DOLLAR then
-        let '(v, s2) := get_hex def true s1 in ((if neg then -1 else 1) * v, s2)
+        let '(v, s2) := get_hex def true s1 in (wrap_sign ((if neg then -1 else 1) * v), s2)
       else if prefixb [c_0; c_o] s1 then
         let s2 := skipn 2 s1 in
         if is_oct_digit (peek0 s2) && negb (match s2 with [] => true | _ => false end) then
